@@ -1,6 +1,6 @@
 #!/bin/bash
 # usage: confirm_seed.sh <PROP> <k>  -- confirms a seeded change in its scratch worktree, then runs the checks against it in /repo
-P=$1; K=$2; WT=/tmp/wt_$P; SD=/tmp/seed_$P
+P=$1; K=$2; R=${ROUND:-}; WT=/tmp/wt${R}_$P; SD=/tmp/seed${R}_$P
 TESTS="tests/unit/test_literal_value.py tests/unit/test_match_template.py tests/unit/test_pattern_matching.py tests/unit/test_pattern_zeroormore_zeroorone_zeroormany.py tests/integration/test_imports.py tests/integration/test_tracing.py"
 cd $WT || exit 9
 git checkout -q -- . ; git clean -fdq
